@@ -12,6 +12,7 @@
 #include <vector>
 #include <map>
 #include <memory>
+#include <deque>
 #include <optional>
 #include <unistd.h>
 #include <sys/resource.h>
@@ -396,6 +397,48 @@ int main(int argc, char **argv) {
           if (idx < 0 || idx > (long)cs->reverseConnections.size()) out << " oob"; else out << " " << idx;
         } else { out << " oob"; }
       }
+      flushLine();
+    } else if (op == "optimize") {
+      // optimize <minw> accnode accw accd egrnode egrw egrd K (trip enterSeq exitSeq walk dist)*K : L1 test of
+      // Calculator::optimizeJourney on a crafted journey (access . legs . egress)
+      nextInt();
+      int accnode = nextInt(), accw = nextInt(), accd = nextInt(), egrnode = nextInt(), egrw = nextInt(), egrd = nextInt();
+      (void)accnode; (void)egrnode;
+      int k = nextInt();
+      g_kind = "optimize";
+      std::deque<JourneyStep> journey;
+      journey.push_back(JourneyStep(std::nullopt, std::nullopt, std::nullopt, accw, false, accd));
+      bool bad = false;
+      for (int i = 0; i < k; i++) {
+        int t = nextInt(), es = nextInt(), xs = nextInt(), w = nextInt(), dd = nextInt();
+        auto it = td.getTrips().find(uuidOf(K_TRIP, t));
+        if (it == td.getTrips().end()) { bad = true; continue; }
+        const Trip &trip = it->second;
+        std::optional<std::reference_wrapper<const Connection>> en, ex;
+        for (auto &c : trip.forwardConnections) { if (c.get().getSequenceInTrip() == es) en = c; if (c.get().getSequenceInTrip() == xs) ex = c; }
+        if (!en.has_value() || !ex.has_value()) { bad = true; continue; }
+        journey.push_back(JourneyStep(en, ex, std::cref(trip), w, false, dd));
+      }
+      journey.push_back(JourneyStep(std::nullopt, std::nullopt, std::nullopt, egrw, false, egrd));
+      if (bad) { out << "optimize badinput"; flushLine(); continue; }
+      alarm(10);
+      try {
+        Calculator calc(td, geo);
+        std::vector<int> used = calc.optimizeJourney(journey);
+        out << "optimize ok";
+        for (int u : used) out << " " << u;
+        for (auto &js : journey) {
+          if (js.hasConnections())
+            out << " | " << idOfUuid(js.getFinalTrip().value().get().uuid) << " " << js.getFinalEnterConnection().value().get().getSequenceInTrip() << " "
+                << js.getFinalExitConnection().value().get().getSequenceInTrip() << " " << js.getTransferTravelTime() << " " << js.getTransferDistance();
+          else
+            out << " | W " << js.getTransferTravelTime() << " " << js.getTransferDistance();
+        }
+      } catch (std::exception &e) {
+        out.str(""); out.clear();
+        printExn("optimize", e);
+      }
+      alarm(0);
       flushLine();
     } else {
       fprintf(stderr, "unexpected op %s\n", op.c_str());
